@@ -41,6 +41,14 @@ nfb_c = num(need(r'num_free_blocks: (\d+),', cb, 'default num_free_blocks (charw
 invalid = num(need(r'pub const INVALID_CODE: u32 = ([A-Za-z0-9_:]+);', mp, 'INVALID_CODE').group(1))
 u24max = num(need(r'pub const MAX: u32 = (0x[0-9a-fA-F_]+|\d+);', ip, 'U24::MAX').group(1))
 
+# U24nU8: `a` = high 24 bits, `b` = low 8 bits; the four accessors must agree on the shift
+sh_a = num(need(r'pub const fn a\(self\) -> U24 \{\s*U24\(self\.0 >> (\d+)\)', ip, 'U24nU8::a shift', re.S).group(1))
+sh_sa = num(need(r'pub fn set_a\(&mut self, a: U24\) \{\s*self\.0 = \(a\.get\(\) << (\d+)\) \| u32::from\(self\.b\(\)\);', ip, 'U24nU8::set_a', re.S).group(1))
+sh_sb = num(need(r'pub fn set_b\(&mut self, b: u8\) \{\s*self\.0 = \(self\.a\(\)\.get\(\) << (\d+)\) \| u32::from\(b\);', ip, 'U24nU8::set_b', re.S).group(1))
+need(r'pub fn b\(self\) -> u8 \{\s*u8::try_from\(self\.0 & u32::from\(u8::MAX\)\)\.unwrap\(\)', ip, 'U24nU8::b mask', re.S)
+if not (sh_a == sh_sa == sh_sb):
+    print('gen_consts: U24nU8 accessors disagree on the shift'); sys.exit(2)
+
 # define_serializable_primitive!(type, size) table; usize/isize under cfg(target_pointer_width = "64")
 prims = []
 lines = se.split('\n')
@@ -98,6 +106,9 @@ def defaultNumFreeBlocksB : Nat := {nfb_b}
 def defaultNumFreeBlocksC : Nat := {nfb_c}
 def invalidCode : Nat := {invalid}
 def u24Max : Nat := {u24max}
+/-- `U24nU8`: `a()` is `self.0 >> packShift`, `b()` is `self.0 & u8::MAX`; `set_a`/`set_b` use the same shift -/
+def packShift : Nat := {sh_a}
+def packMask : Nat := 255
 /-- `define_serializable_primitive!(type, size)` table (64-bit target): name, width, signed. -/
 def primWidths : List (String × Nat × Bool) :=
   {lst([f'("{t}", {w}, {signed(t)})' for t, w in prims])}
